@@ -171,6 +171,36 @@ def h_sum(E, where):
     return 'ok'
 
 
+def h_instructor_kinds(E, cls):
+    """instructor-only names of every kind a sample can contain - plain variable, dependent variable, numbered-variable INSTANCE, user constant - are
+    unusable by the student in every grader class, while the author's answer uses them"""
+    import mitxgraders as m
+    from mitxgraders import DependentSampler
+    SX = make_sym_sampler(E, 'x', 1, 2)
+    SA = make_sym_sampler(E, 'a', 2, 3)
+    common = dict(variables=['x', 'c', 'd'], numbered_vars=['a'], sample_from={'x': SX(), 'a': SA(), 'c': [2, 3], 'd': DependentSampler(formula='c+1')},
+                  instructor_vars=['c', 'd', 'a_{0}', 'pi'], samples=1)
+    if cls == 'sum':
+        g = m.SumGrader(answers={'lower': '1', 'upper': '3', 'summand': 'x*n + 0*(c+d+a_{0}+pi)', 'summation_variable': 'n'}, input_positions={'summand': 1}, **common)
+        honest = 'n*x'
+    elif cls == 'formula':
+        g = m.FormulaGrader(answers='x + 0*(c+d+a_{0}+pi)', **common)
+        honest = 'x'
+    else:
+        g = m.MatrixGrader(answers='x + 0*(c+d+a_{0}+pi)', **common)
+        honest = 'x'
+    res = _run(E, g, honest)
+    E.check('honest-answer-graded', res[0] == 'ret' and res[1]['ok'] is True)
+    res = _run(E, g, honest + ' + 0*a_{1}')
+    E.check('other-instances-of-the-numbered-variable-stay-usable', res[0] == 'ret' and res[1]['ok'] is True)
+    for name in ('c', 'd', 'a_{0}', 'pi'):
+        for form in ('%s + %s - %s', '%s*%s^0', '%s + sin(0*%s)'):
+            cheat = form % ((honest,) + (name,) * (form.count('%s') - 1))
+            res = _run(E, g, cheat)
+            E.check('restricted-construct-refused-never-credited', res[0] == 'refused')
+    return 'ok'
+
+
 def h_siblings(E):
     """ordered list whose second answer references the first input: the student cannot use the sibling name, the author can"""
     import mitxgraders as m
@@ -285,6 +315,8 @@ def harnesses(tier):
         add(h_numerical, 'numerical', dict(credit=credit), 'symbolic constant')
     for where in ('summand', 'lower', 'upper', 'all'):
         add(h_sum, 'sum', dict(where=where), 'symbolic samples; restricted construct in that field')
+    for cls in ('formula', 'matrix', 'sum'):
+        add(h_instructor_kinds, 'instructor_kinds', dict(cls=cls), 'instructor-only plain / dependent / numbered-instance / constant names x 3 cancelling forms')
     add(h_suffix_isolation, 'suffix_isolation', {}, 'a metric-suffix grader built before / after / both x 4 grader classes x 3-4 hidden suffix uses')
     add(h_siblings, 'siblings', {}, 'symbolic samples')
     for n, k in ((3, 1), (11, 10), (12, 3), (12, 11)):
